@@ -3283,6 +3283,9 @@ impl<'a> FnTr<'a> {
                         Ok((format!("(Rt.ck .{} ({} {} {}))", t, paren(&r), o, a), Ty::Opt(Box::new(ity))))
                     }
                     "abs" => Ok((self.act(st, format!("Rt.ck .{} (Int.natAbs {} : Int)", t, paren(&r))), ity)),
+                    // builder F: `uN::count_ones()` (-> u32) of an unsigned value: `Rt.countOnes` of LoraVerif/RtBits.lean (the unit
+                    // must import it; a unit that does not fails to build, loudly)
+                    "count_ones" if t.starts_with('u') && m.args.is_empty() => Ok((format!("(Rt.countOnes {})", paren(&r)), Ty::Int("u32"))),
                     // builder O: big-endian bytes of an unsigned integer
                     "to_be_bytes" if !t.starts_with('i') => Ok((format!("(Rt.Phy.beBytes .{} {})", t, paren(&r)), Ty::Arr(Box::new(Ty::Int("u8"))))),
                     // builder L: unsigned `is_multiple_of` (never panics: `x.is_multiple_of(0)` is `x == 0`)
